@@ -333,6 +333,10 @@ class BuiltinsMixin:
         sv.meta = ("tuple", elems)
         return sv
 
+    def mk_tuple_pure(self, elems) -> SV:
+        """tuple value for immediate unpacking in spec mode (nothing allocated)"""
+        return SV(NONE, Ty("tuple", tuple(e.ty or Ty("any") for e in elems)), ("tuple", elems))
+
     def to_list(self, sv: SV, fr, node=None) -> SV:
         st = self.st
         if sv.meta and sv.meta[0] == "genexp":
